@@ -817,12 +817,10 @@ class Biclique(Layer):
         Returns:
             dict[str, torch.Tensor]: dictionary of output names to tensors.
         """
+        # transform each connection output once, then combine separately for each group
+        transformed = {k: self.post_input[k](v) for k, v in inputs.items()}
         return {
-            k: v(
-                self._combine(
-                    {k: self.post_input[k](v) for k, v in inputs.items()}, **kwargs
-                )
-            )
+            k: v(self._combine(transformed, **kwargs))
             for k, v in self.pre_output.items()
         }
 
